@@ -1,163 +1,219 @@
 (* The certificate of Once.v (the packrat bound) for grammars that may contain
-   @leftrec rules.  It is WellFormed.wf_check with one relaxation and one
-   extra demand:
-     - inside the body of a @leftrec rule A, a reference to A itself needs no
-       rank (`self`): while A is open at a position its own calls at that
-       position are answered from the cache (the sentinel, later the seed) and
-       evaluate nothing;
-     - the body of a @leftrec rule is checked like every other body (wf_check
-       skips it), with the rule's own rank as the bound.
-   Every other reference to a @leftrec rule is ranked like any call, so a
-   memoized rule can not lie on a cycle through a @leftrec rule that returns
-   to it at the same position - the shape of the known finding
-   c06:reentrant-through-leftrec, where a body is evaluated twice. *)
-From PegV Require Import Utf8 State Syntax WellFormed Termination.
+   @leftrec rules.  It refines WellFormed.wf_check by the set X of @leftrec
+   rules that are *open* at the current offset (their growth loop is running
+   there, so a call is answered from the cache - sentinel or seed - and
+   evaluates nothing):
+     - a unit of recursion is a pair (X, u): the call or include u entered
+       while the rules of X are open; entering a @leftrec rule n adds n to X
+       for its body; once a character has been consumed nothing is known to
+       be open any more (X = []);
+     - ranks may depend on X (the same plain rule can be entered with and
+       without the @leftrec rule it recurses into being open), except for
+       memoized rules: their rank must be the same in every context in which
+       they are demanded.  A memoized rule on a cycle through a @leftrec rule
+       that can return to it at the same offset has no such rank - the shape
+       of the known finding c06:reentrant-through-leftrec;
+     - `dem X u` says which units are demanded (every call demands its unit
+       in the current context and in the empty one); every demanded unit's
+       body must pass the check.
+   Without @leftrec rules X is always empty and the check is WellFormed.wf_check. *)
+From PegV Require Import Utf8 State Syntax Fields FieldsFacts WellFormed Termination.
 
-Definition self_ok (x : option name) (n : name) : bool :=
-  match x with Some a => name_eqb a n | None => false end.
+Definition is_lrule (g : grammar) (n : name) : bool :=
+  match find_grule g n with
+  | Some (GRule r) => fl_left_recursive (flags_of (r_directives r))
+  | _ => false
+  end.
 
-Section WFS.
+Definition is_mrule (g : grammar) (n : name) : bool :=
+  match find_grule g n with
+  | Some (GRule r) => let fl := flags_of (r_directives r) in negb (fl_left_recursive fl) && fl_memoize fl
+  | _ => false
+  end.
+
+Definition openb (X : list name) (n : name) : bool := existsb (name_eqb n) X.
+
+Lemma openb_in X n : openb X n = true -> In n X.
+Proof.
+  unfold openb. intro H. apply existsb_exists in H. destruct H as (a & Ha & E). apply name_eqb_eq in E. subst a. exact Ha.
+Qed.
+
+Section WFX.
 Variable g : grammar.
 Variable nul : name -> bool.
-Variable rk : runit -> nat.
+Variable rkX : list name -> runit -> nat.
+Variable dem : list name -> runit -> bool.
 
 Notation enull := (enull nul).
-Notation bound_ok := (bound_ok rk).
-Notation ws_ok := (ws_ok rk).
 
-Fixpoint wfeS (x : option name) (k : option nat) (s : bool) (e : expr) : bool :=
+(* the context that is still known: nothing once a character has been consumed *)
+Definition cx (X : list name) (k : option nat) : list name := match k with Some _ => X | None => [] end.
+
+Definition callb (X : list name) (k : option nat) (u : runit) : bool :=
+  bound_ok (rkX X) k u && dem (cx X k) u && dem [] u.
+
+Definition wsb (X : list name) (k : option nat) (s : bool) : bool :=
+  if s then callb X k (UCall n_Whitespace) else true.
+
+Definition openk (X : list name) (k : option nat) (n : name) : bool :=
+  match k with Some _ => openb X n | None => false end.
+
+Fixpoint wfeX (X : list name) (k : option nat) (s : bool) (e : expr) : bool :=
   match e with
-  | EChoice alts => forallb (wfeS x k s) alts
+  | EChoice alts => forallb (wfeX X k s) alts
   | ESeq parts =>
     (fix go (k : option nat) (ps : list expr) : bool :=
        match ps with
        | [] => true
-       | p :: r => wfeS x k s p && go (if enull p then k else None) r
+       | p :: r => wfeX X k s p && go (if enull p then k else None) r
        end) k parts
-  | EGroup b => wfeS x k s b
-  | EOptional b => wfeS x k s b
-  | EClosure b _ => wfeS x k s b && negb (enull b)
-  | ENeg b => wfeS x k s b
-  | EPos b => wfeS x k s b
-  | ERange _ _ => ws_ok k s
-  | ELit _ _ => ws_ok k s
-  | EEoi => ws_ok k s
-  | EInclude n => bound_ok k (UInc s n)
-  | EField _ _ typ => ws_ok k s && (self_ok x typ || bound_ok k (UCall typ))
+  | EGroup b => wfeX X k s b
+  | EOptional b => wfeX X k s b
+  | EClosure b _ => wfeX X k s b && negb (enull b)
+  | ENeg b => wfeX X k s b
+  | EPos b => wfeX X k s b
+  | ERange _ _ => wsb X k s
+  | ELit _ _ => wsb X k s
+  | EEoi => wsb X k s
+  | EInclude n => callb X k (UInc s n)
+  | EField _ _ typ => wsb X k s && dem [] (UCall typ) && (openk X k typ || callb X k (UCall typ))
   end.
 
-Fixpoint wfseqS (x : option name) (k : option nat) (s : bool) (ps : list expr) : bool :=
+Fixpoint wfseqX (X : list name) (k : option nat) (s : bool) (ps : list expr) : bool :=
   match ps with
   | [] => true
-  | p :: r => wfeS x k s p && wfseqS x (if enull p then k else None) s r
+  | p :: r => wfeX X k s p && wfseqX X (if enull p then k else None) s r
   end.
 
-Lemma wfeS_seq_eq x k s parts : wfeS x k s (ESeq parts) = wfseqS x k s parts.
-Proof. cbn [wfeS]. revert k. induction parts as [|p ps IH]; intro k; cbn [wfseqS]; [reflexivity|]. rewrite IH. reflexivity. Qed.
+Lemma wfeX_seq_eq X k s parts : wfeX X k s (ESeq parts) = wfseqX X k s parts.
+Proof. cbn [wfeX]. revert k. induction parts as [|p ps IH]; intro k; cbn [wfseqX]; [reflexivity|]. rewrite IH. reflexivity. Qed.
 
-Lemma wfeS_none : forall e k s, wfeS None k s e = wfe nul rk k s e.
+Lemma callb_weaken X k u : callb X k u = true -> callb X None u = true.
 Proof.
-  induction e using expr_ind'; intros k s.
-  - cbn [wfeS wfe]. induction H as [|a l Ha Hl IH]; [reflexivity|]. cbn [forallb]. rewrite Ha, IH. reflexivity.
-  - rewrite wfeS_seq_eq, wfe_seq_eq. revert k. induction H as [|p ps Hp Hps IH]; intro k; [reflexivity|].
-    cbn [wfseqS wfseq]. rewrite Hp, IH. reflexivity.
-  - cbn [wfeS wfe]. auto.
-  - cbn [wfeS wfe]. auto.
-  - cbn [wfeS wfe]. rewrite IHe. reflexivity.
-  - cbn [wfeS wfe]. auto.
-  - cbn [wfeS wfe]. auto.
-  - reflexivity.
-  - reflexivity.
-  - reflexivity.
-  - reflexivity.
-  - reflexivity.
+  unfold callb. intro H. apply andb_prop in H. destruct H as [H H2]. cbn. rewrite H2. reflexivity.
 Qed.
 
-Lemma wfeS_weaken : forall e x k s, wfeS x k s e = true -> wfeS x None s e = true.
+Lemma wsb_weaken X k s : wsb X k s = true -> wsb X None s = true.
+Proof. unfold wsb. destruct s; [apply callb_weaken|auto]. Qed.
+
+Lemma wfeX_weaken : forall e X k s, wfeX X k s e = true -> wfeX X None s e = true.
 Proof.
-  induction e using expr_ind'; intros x k s W.
-  - cbn [wfeS] in *. rewrite forallb_forall in *. intros y Hy. rewrite Forall_forall in H. eapply H; eauto.
-  - rewrite wfeS_seq_eq in *. revert k W. induction H as [|p ps Hp Hps IH]; intros k W; [reflexivity|].
-    cbn [wfseqS] in *. apply andb_prop in W. destruct W as [W1 W2]. rewrite (Hp _ _ _ W1). cbn.
+  induction e using expr_ind'; intros X k s W.
+  - cbn [wfeX] in *. rewrite forallb_forall in *. intros y Hy. rewrite Forall_forall in H. eapply H; eauto.
+  - rewrite wfeX_seq_eq in *. revert k W. induction H as [|p ps Hp Hps IH]; intros k W; [reflexivity|].
+    cbn [wfseqX] in *. apply andb_prop in W. destruct W as [W1 W2]. rewrite (Hp _ _ _ W1). cbn.
     destruct (enull p); eapply IH; eauto.
-  - cbn [wfeS] in *. eauto.
-  - cbn [wfeS] in *. eauto.
-  - cbn [wfeS] in *. apply andb_prop in W. destruct W as [W1 W2]. rewrite (IHe _ _ _ W1), W2. reflexivity.
-  - cbn [wfeS] in *. eauto.
-  - cbn [wfeS] in *. eauto.
-  - cbn [wfeS] in *. eapply ws_ok_weaken; eauto.
-  - cbn [wfeS] in *. eapply ws_ok_weaken; eauto.
-  - cbn [wfeS] in *. eapply ws_ok_weaken; eauto.
-  - reflexivity.
-  - cbn [wfeS] in *. apply andb_prop in W. destruct W as [W1 _]. rewrite (ws_ok_weaken rk _ _ W1). cbn. apply Bool.orb_true_r.
+  - cbn [wfeX] in *. eauto.
+  - cbn [wfeX] in *. eauto.
+  - cbn [wfeX] in *. apply andb_prop in W. destruct W as [W1 W2]. rewrite (IHe _ _ _ W1), W2. reflexivity.
+  - cbn [wfeX] in *. eauto.
+  - cbn [wfeX] in *. eauto.
+  - cbn [wfeX] in *. eapply wsb_weaken; eauto.
+  - cbn [wfeX] in *. eapply wsb_weaken; eauto.
+  - cbn [wfeX] in *. eapply wsb_weaken; eauto.
+  - cbn [wfeX] in *. eapply callb_weaken; eauto.
+  - cbn [wfeX] in *. apply andb_prop in W. destruct W as [W W3]. apply andb_prop in W. destruct W as [W1 W2].
+    rewrite (wsb_weaken _ _ _ W1), W2. cbn. unfold callb. cbn. rewrite W2. reflexivity.
 Qed.
 
-Lemma wfseqS_weaken ps : forall x k s, wfseqS x k s ps = true -> wfseqS x None s ps = true.
-Proof. intros x k s W. rewrite <- wfeS_seq_eq in *. eapply wfeS_weaken; eauto. Qed.
+Lemma wfseqX_weaken ps : forall X k s, wfseqX X k s ps = true -> wfseqX X None s ps = true.
+Proof. intros X k s W. rewrite <- wfeX_seq_eq in *. eapply wfeX_weaken; eauto. Qed.
 
-Definition rank_ok_once (gr : grule) : bool :=
-  match gr with
-  | GRule r =>
-    let fl := flags_of (r_directives r) in
-    wfeS (if fl_left_recursive fl then Some (r_name r) else None)
-         (Some (rk (UCall (r_name r)))) (negb (fl_no_skip_ws fl)) (r_def r)
-    && wfeS None (Some (rk (UInc true (r_name r)))) true (r_def r)
-    && wfeS None (Some (rk (UInc false (r_name r)))) false (r_def r)
-  | GChar r =>
-    forallb (fun p => match p with
-                      | CPIdent m => Nat.ltb (rk (UCall m)) (rk (UCall (cr_name r)))
-                      | _ => true
-                      end) (cr_choices r)
-  | GExtern _ => true
-  end.
-
-Definition wf_check_once : bool :=
-  nul n_Whitespace && forallb (nul_ok_rule nul) g && forallb rank_ok_once g.
-
-(* without @leftrec rules this is WellFormed.wf_check *)
-Lemma wf_check_once_of_wf_check :
-  (forall r, In (GRule r) g -> fl_left_recursive (flags_of (r_directives r)) = false) ->
-  wf_check g nul rk = true -> wf_check_once = true.
-Proof.
-  intros NoLR W. unfold wf_check in W. unfold wf_check_once.
-  apply andb_prop in W. destruct W as [W W3]. rewrite W. cbn [andb].
-  rewrite forallb_forall in *. intros gr Hin. specialize (W3 gr Hin). destruct gr as [r|r|r]; cbn [rank_ok_once rank_ok_rule] in *; auto.
-  rewrite (NoLR r Hin) in *. cbn [orb] in W3. rewrite !wfeS_none. exact W3.
-Qed.
-
-Section Access.
-Hypothesis WF : wf_check_once = true.
-
-Lemma wfo_ws : nul n_Whitespace = true.
-Proof. unfold wf_check_once in WF. apply andb_prop in WF. destruct WF as [W _]. apply andb_prop in W. tauto. Qed.
-
-Lemma wfo_nul gr : In gr g -> nul_ok_rule nul gr = true.
-Proof.
-  unfold wf_check_once in WF. apply andb_prop in WF. destruct WF as [W _]. apply andb_prop in W. destruct W as [_ W].
-  rewrite forallb_forall in W. auto.
-Qed.
-
-Lemma wfo_rank gr : In gr g -> rank_ok_once gr = true.
-Proof. unfold wf_check_once in WF. apply andb_prop in WF. destruct WF as [_ W]. rewrite forallb_forall in W. auto. Qed.
-End Access.
-
-End WFS.
-
-(* ---- the analysis: ranks along heads, a @leftrec rule's own name left out of its heads ---- *)
-
-Definition not_self (n : name) (u : runit) : bool :=
-  match u with UCall m => negb (name_eqb n m) | _ => true end.
-
-Definition unit_heads_once (g : grammar) (nul : name -> bool) (u : runit) : list runit :=
+(* the body of a demanded unit, under the unit's own rank and with the unit's rule added to the open
+   ones when it is a @leftrec rule *)
+Definition unit_ok (X : list name) (u : runit) : bool :=
   match u with
   | UCall n =>
     match find_grule g n with
     | Some (GRule r) =>
       let fl := flags_of (r_directives r) in
-      let hs := heads nul (negb (fl_no_skip_ws fl)) (r_def r) in
-      if fl_left_recursive fl then filter (not_self (r_name r)) hs else hs
+      wfeX (if fl_left_recursive fl then r_name r :: X else X) (Some (rkX X u)) (negb (fl_no_skip_ws fl)) (r_def r)
     | Some (GChar r) =>
-      flat_map (fun p => match p with CPIdent m => [UCall m] | _ => [] end) (cr_choices r)
+      forallb (fun p => match p with
+                        | CPIdent m => callb X (Some (rkX X u)) (UCall m)
+                        | _ => true
+                        end) (cr_choices r)
+    | _ => true
+    end
+  | UInc s n =>
+    match find_rule g n with
+    | Some r => wfeX X (Some (rkX X u)) s (r_def r)
+    | None => true
+    end
+  end.
+
+(* memoized rules: one rank, whatever is open *)
+Definition memo_ok (X : list name) (u : runit) : bool :=
+  match u with
+  | UCall n => implb (is_mrule g n) (Nat.eqb (rkX X u) (rkX [] u))
+  | _ => true
+  end.
+
+Definition nul_okX : bool := nul n_Whitespace && forallb (nul_ok_rule nul) g.
+
+End WFX.
+
+(* ---- a finite certificate: the demanded units as a list ----------------------------------- *)
+
+Fixpoint names_eqb (a b : list name) : bool :=
+  match a, b with
+  | [], [] => true
+  | x :: a', y :: b' => name_eqb x y && names_eqb a' b'
+  | _, _ => false
+  end.
+
+Lemma names_eqb_eq a : forall b, names_eqb a b = true -> a = b.
+Proof.
+  induction a as [|x a IH]; intros [|y b] H; cbn in H; try discriminate; [reflexivity|].
+  apply andb_prop in H. destruct H as [H1 H2]. apply name_eqb_eq in H1. subst y. rewrite (IH _ H2). reflexivity.
+Qed.
+
+Lemma runit_eqb_eq a b : runit_eqb a b = true -> a = b.
+Proof.
+  destruct a as [n|s n], b as [m|t m]; cbn; try discriminate.
+  - intro H. apply name_eqb_eq in H. subst m. reflexivity.
+  - intro H. apply andb_prop in H. destruct H as [H1 H2]. apply name_eqb_eq in H2. subst m.
+    destruct s, t; cbn in H1; try discriminate; reflexivity.
+Qed.
+
+Definition xunit := (list name * runit)%type.
+
+Definition memU (U : list xunit) (X : list name) (u : runit) : bool :=
+  existsb (fun y => names_eqb X (fst y) && runit_eqb u (snd y)) U.
+
+Lemma memU_in U X u : memU U X u = true -> In (X, u) U.
+Proof.
+  unfold memU. intro H. apply existsb_exists in H. destruct H as ([Y v] & Hin & E). cbn in E.
+  apply andb_prop in E. destruct E as [E1 E2]. apply names_eqb_eq in E1. apply runit_eqb_eq in E2. subst. exact Hin.
+Qed.
+
+Definition wf_check_onceX (g : grammar) (nul : name -> bool) (rkX : list name -> runit -> nat) (U : list xunit) : bool :=
+  nul_okX g nul &&
+  forallb (fun y => unit_ok g nul rkX (memU U) (fst y) (snd y) && memo_ok g rkX (fst y) (snd y)) U.
+
+Lemma wf_check_onceX_unit g nul rkX U : wf_check_onceX g nul rkX U = true ->
+  forall X u, memU U X u = true -> unit_ok g nul rkX (memU U) X u = true /\ memo_ok g rkX X u = true.
+Proof.
+  intros W X u H. unfold wf_check_onceX in W. apply andb_prop in W. destruct W as [_ W].
+  rewrite forallb_forall in W. specialize (W _ (memU_in _ _ _ H)). cbn in W. apply andb_prop in W. exact W.
+Qed.
+
+(* ---- the analysis ------------------------------------------------------------------------- *)
+(* demanded units: everything in the empty context, closed under "reached before a character is
+   consumed" with the @leftrec rules entered on the way open *)
+
+Definition enter (g : grammar) (X : list name) (u : runit) : list name :=
+  match u with
+  | UCall n => if is_lrule g n && negb (openb X n) then n :: X else X
+  | UInc _ _ => X
+  end.
+
+Definition raw_heads (g : grammar) (nul : name -> bool) (u : runit) : list runit :=
+  match u with
+  | UCall n =>
+    match find_grule g n with
+    | Some (GRule r) => heads nul (negb (fl_no_skip_ws (flags_of (r_directives r)))) (r_def r)
+    | Some (GChar r) => flat_map (fun p => match p with CPIdent m => [UCall m] | _ => [] end) (cr_choices r)
     | _ => []
     end
   | UInc s n =>
@@ -167,31 +223,70 @@ Definition unit_heads_once (g : grammar) (nul : name -> bool) (u : runit) : list
     end
   end.
 
-Definition rk_step_once (g : grammar) (nul : name -> bool) (t : list (runit * nat)) : list (runit * nat) :=
-  map (fun ur => let u := fst ur in
-                 (u, match unit_heads_once g nul u with
-                     | [] => 0
-                     | hs => S (fold_right (fun h a => Nat.max (rk_lookup t h) a) 0 hs)
-                     end)) t.
+Definition is_open (X : list name) (u : runit) : bool :=
+  match u with UCall m => openb X m | _ => false end.
 
-Fixpoint rk_iter_once (g : grammar) (nul : name -> bool) (k : nat) (t : list (runit * nat)) : list (runit * nat) :=
+(* what (X, u) reaches before consuming, with the context its body runs in; open rules are hits *)
+Definition succ_units (g : grammar) (nul : name -> bool) (y : xunit) : list xunit :=
+  let X' := enter g (fst y) (snd y) in
+  map (fun h => (X', h)) (filter (fun h => negb (is_open X' h)) (raw_heads g nul (snd y))).
+
+Definition add_unit (U : list xunit) (y : xunit) : list xunit :=
+  if memU U (fst y) (snd y) then U else U ++ [y].
+
+Fixpoint close_units (g : grammar) (nul : name -> bool) (fuel : nat) (U : list xunit) : list xunit :=
+  match fuel with
+  | O => U
+  | S f =>
+    let U' := fold_left add_unit (flat_map (succ_units g nul) U) U in
+    if Nat.eqb (length U') (length U) then U else close_units g nul f U'
+  end.
+
+Fixpoint rkx_lookup (t : list (xunit * nat)) (X : list name) (u : runit) : nat :=
+  match t with
+  | [] => 0
+  | (y, r) :: t' => if names_eqb X (fst y) && runit_eqb u (snd y) then r else rkx_lookup t' X u
+  end.
+
+Definition raw_rank (g : grammar) (nul : name -> bool) (t : list (xunit * nat)) (y : xunit) : nat :=
+  match succ_units g nul y with
+  | [] => 0
+  | hs => S (fold_right (fun h a => Nat.max (rkx_lookup t (fst h) (snd h)) a) 0 hs)
+  end.
+
+(* memoized rules take the largest rank over the contexts they are demanded in *)
+Definition rkx_step (g : grammar) (nul : name -> bool) (t : list (xunit * nat)) : list (xunit * nat) :=
+  let raw := map (fun yr => (fst yr, raw_rank g nul t (fst yr))) t in
+  map (fun yr =>
+         match snd (fst yr) with
+         | UCall n =>
+           if is_mrule g n
+           then (fst yr, fold_right (fun zr a => if runit_eqb (snd (fst zr)) (UCall n) then Nat.max (snd zr) a else a) 0 raw)
+           else yr
+         | _ => yr
+         end) raw.
+
+Fixpoint rkx_iter (g : grammar) (nul : name -> bool) (k : nat) (t : list (xunit * nat)) : list (xunit * nat) :=
   match k with
   | O => t
-  | S k' => rk_iter_once g nul k' (rk_step_once g nul t)
+  | S k' =>
+    let t' := rkx_step g nul t in
+    if forallb (fun ab => Nat.eqb (snd (fst ab)) (snd (snd ab))) (combine t t') then t else rkx_iter g nul k' t'
   end.
 
-Definition analyse_once (g : grammar) : cert :=
+Record certX := { cx_nul : name -> bool; cx_rk : list name -> runit -> nat; cx_units : list xunit }.
+
+Definition analyse_onceX (g : grammar) : certX :=
   let nl := nul_iter g (S (length g)) [] in
   let nul := nul_of nl in
-  let us := all_units g in
-  let t := rk_iter_once g nul (S (length us)) (map (fun u => (u, 0)) us) in
-  {| c_nul := nul; c_rk := rk_lookup t |}.
+  let U0 := map (fun u => ([], u)) (all_units g) in
+  let U := close_units g nul (S (length U0) * S (length g)) U0 in
+  let t := rkx_iter g nul (S (length U)) (map (fun y => (y, 0)) U) in
+  {| cx_nul := nul; cx_rk := rkx_lookup t; cx_units := U |}.
 
 Definition well_formed_once (g : grammar) : bool :=
-  let c := analyse_once g in wf_check_once g (c_nul c) (c_rk c).
+  let c := analyse_onceX g in wf_check_onceX g (cx_nul c) (cx_rk c) (cx_units c).
 
-Definition is_lrule (g : grammar) (n : name) : bool :=
-  match find_grule g n with
-  | Some (GRule r) => fl_left_recursive (flags_of (r_directives r))
-  | _ => false
-  end.
+(* ... and every rule of the grammar may be the start rule *)
+Definition well_formed_once_all (g : grammar) : bool :=
+  well_formed_once g && forallb (fun gr => memU (cx_units (analyse_onceX g)) [] (UCall (grule_name gr))) g.
